@@ -66,6 +66,31 @@ sink s2
   }
 `
 
+// two invocations write DIFFERENT global variables and read global functions,
+// without an ECAL mutex: the interpreter's own bookkeeping (the variable scope)
+// must keep them apart
+const c11Globals = `
+ga := 0
+gb := 0
+sink s1
+  kindmatch ["k"],
+  {
+    let id := event.state.id
+    if id == 1 {
+      ga := id
+    } else {
+      gb := id
+    }
+    hyield()
+    probe(id, event.state.id, event.name)
+    if id == 1 {
+      ga := ga + 10
+    } else {
+      gb := gb + 10
+    }
+  }
+`
+
 func (s *c11State) install() {
 	s.en.def("hyield", func(tid uint64, args []interface{}) (interface{}, error) {
 		vsched.Yield()
@@ -198,6 +223,10 @@ func init() {
 				Make: c11Make(c11One, w, x.fails, false)})
 		}
 	}
+	register(&Scenario{Prop: "C11", Name: "different-globals-ok-ok-w2", Quick: 1, Thor: 2,
+		FreeQuick: 1, FreeThor: 1, QuickShards: 2, ThorShards: 4,
+		Desc: "2 events on 2 workers trigger a sink that writes a different global variable per event and reads global functions, without an ECAL mutex",
+		Make: c11Make(c11Globals, 2, []bool{false, false}, false)})
 	for _, x := range []v{{"fail-ok", []bool{true, false}}, {"ok-ok", []bool{false, false}}} {
 		x := x
 		register(&Scenario{Prop: "C11", Name: "two-sinks-shared-func-" + x.name + "-w2", Quick: 1, Thor: 2,
